@@ -353,17 +353,35 @@ class OscTcpInterface(OscInterface):
         _libsc3.main._atexitq.add(
             _libsc3.main._atexitprio.NETWORKING, self.disconnect)
 
+    def _tcp_recv(self, size):
+        # TCP is a stream, recv may return less than size bytes.
+        data = b''
+        while len(data) < size:
+            chunk = self._socket.recv(size - len(data))
+            if not chunk:
+                return None  # Connection closed by the peer.
+            data += chunk
+        return data
+
     def _tcp_run(self):
         self._run_thread = True
         while self._run_thread:
             try:
-                data = self._socket.recv(4)
-                if not data:
+                data = self._tcp_recv(4)
+                if data is None:
                     self._is_connected = False
                     break
                 size = struct.unpack('>i', data)[0]
-                data = self._socket.recv(size)
-                if not data:
+                if size < 0:
+                    # The stream can't be followed any more.
+                    _logger.error(
+                        f'{str(self)}: invalid packet size {size}')
+                    self._is_connected = False
+                    break
+                if size == 0:
+                    continue  # Empty packet, nothing to process.
+                data = self._tcp_recv(size)
+                if data is None:
                     self._is_connected = False
                     break
                 self._handle_request(data, self._socket.getpeername())
